@@ -321,4 +321,231 @@ theorem list_finalize (k : Crypto) (hk : Crypto.Lawful k) (nonce : Bytes) (adds 
     rw [this, List.take_left, hout']
   · simp only [List.length_append, hinv.out]
 
+
+/-! ## totality: no input makes `List` panic -/
+
+/-- **No panic.** For every cipher behaviour, every byte string and every claimed size, `List`
+returns entries or an error: no slice expression is ever out of range and the parse loop always
+terminates within its fuel. -/
+theorem list_no_panic (k : Crypto) (file : Bytes) (size : Nat) : list k file size ≠ .panic := by
+  obtain ⟨h4, hplain, hentry, hhs, hext, hmin, hmax32, _⟩ := facts_layout
+  unfold list
+  have hr := readHeader_no_panic file size
+  cases hrh : readHeader file size with
+  | panic => exact absurd hrh hr
+  | err e => simp
+  | ok buf =>
+    simp only
+    by_cases hl : buf.length < crypto_Extension
+    · simp [hl]
+    · simp only [hl, if_false]
+      rw [slice?_ok _ _ _ (by omega) (by omega), from?_ok _ _ (by omega)]
+      simp only
+      cases k.openB ((buf.take crypto_ivSize).drop 0) (buf.drop crypto_ivSize) with
+      | none => simp
+      | some plain =>
+        simp only
+        have hp := parseLoop_no_panic plain.length plain 0 (Nat.le_refl _)
+        cases hpl : parseLoop plain.length plain 0 with
+        | panic => exact absurd hpl hp
+        | err e => simp
+        | ok es => simp
+
+theorem verifyHeader_no_panic (k : Crypto) (enc : Bytes) (bs : List Blob) : verifyHeader k enc bs ≠ .panic := by
+  unfold verifyHeader
+  have hl := list_no_panic k enc enc.length
+  cases hle : list k enc enc.length with
+  | panic => exact absurd hle hl
+  | err e => simp
+  | ok r =>
+    obtain ⟨decoded, hs⟩ := r
+    simp only
+    repeat' split
+    all_goals simp
+
+/-- `Finalize` cannot panic either (whatever the nonce and the blobs) -/
+theorem finalize_no_panic (k : Crypto) (nonce : Bytes) (bs : List Blob) : finalize k nonce bs ≠ .panic := by
+  unfold finalize
+  cases makeHeader bs with
+  | none => simp
+  | some header =>
+    simp only
+    generalize nonce ++ k.sealB nonce header ++ le32 (nonce ++ k.sealB nonce header).length = enc
+    have hv := verifyHeader_no_panic k enc bs
+    cases hvv : verifyHeader k enc bs with
+    | panic => exact absurd hvv hv
+    | err e => simp
+    | ok u => cases u; simp
+
+/-! ## rejection of malformed trailers -/
+
+/-- every guard of the trailer reader turns into the corresponding error of `List` -/
+theorem list_of_headerOf_err (k : Crypto) (file : Bytes) (e : Err) (h : headerOf file = .err e) :
+    list k file file.length = .err e := by
+  unfold list
+  rw [readHeader_eq, h]
+
+/-- a file shorter than the smallest possible pack is rejected -/
+theorem list_too_short (k : Crypto) (file : Bytes) (h : file.length < pack_minFileSize) :
+    list k file file.length = .err .fileTooShort :=
+  list_of_headerOf_err k file _ (by unfold headerOf; simp [h])
+
+/-- the length field (last four bytes, little endian) decides: zero, smaller than the crypto
+overhead, larger than what precedes it, or larger than `MaxHeaderSize - 4` are all rejected -/
+theorem list_bad_length_field (k : Crypto) (file : Bytes) (hn : pack_minFileSize ≤ file.length) :
+    let hlen := unle32 (file.drop (file.length - pack_headerLengthSize))
+    (hlen = 0 → list k file file.length = .err .hlenZero) ∧
+    (0 < hlen → hlen < crypto_Extension → list k file file.length = .err .hlenTooShort) ∧
+    (crypto_Extension ≤ hlen → file.length < hlen + pack_headerLengthSize →
+      list k file file.length = .err .hlenLargerThanFile) ∧
+    (crypto_Extension ≤ hlen → hlen + pack_headerLengthSize ≤ file.length →
+      pack_MaxHeaderSize < hlen + pack_headerLengthSize → list k file file.length = .err .hlenLargerThanMax) := by
+  obtain ⟨h4, hplain, hentry, hhs, hext, hmin, hmax32, _⟩ := facts_layout
+  intro hlen
+  have hext0 : 0 < crypto_Extension := by decide
+  have hs : ¬ file.length < pack_minFileSize := by omega
+  refine ⟨fun h0 => ?_, fun h1 h2 => ?_, fun h1 h2 => ?_, fun h1 h2 h3 => ?_⟩ <;>
+    apply list_of_headerOf_err <;> unfold headerOf <;> simp only [hs, if_false]
+  · have : unle32 (file.drop (file.length - pack_headerLengthSize)) = 0 := h0
+    simp [this]
+  · have e0 : ¬ unle32 (file.drop (file.length - pack_headerLengthSize)) = 0 := by show ¬ hlen = 0; omega
+    have e1 : unle32 (file.drop (file.length - pack_headerLengthSize)) < crypto_Extension := h2
+    simp [e0, e1]
+  · have e0 : ¬ unle32 (file.drop (file.length - pack_headerLengthSize)) = 0 := by show ¬ hlen = 0; omega
+    have e1 : ¬ unle32 (file.drop (file.length - pack_headerLengthSize)) < crypto_Extension := by show ¬ hlen < _; omega
+    have e2 : unle32 (file.drop (file.length - pack_headerLengthSize)) + pack_headerLengthSize > file.length := h2
+    simp [e0, e1, e2]
+  · have e0 : ¬ unle32 (file.drop (file.length - pack_headerLengthSize)) = 0 := by show ¬ hlen = 0; omega
+    have e1 : ¬ unle32 (file.drop (file.length - pack_headerLengthSize)) < crypto_Extension := by show ¬ hlen < _; omega
+    have e2 : ¬ unle32 (file.drop (file.length - pack_headerLengthSize)) + pack_headerLengthSize > file.length := by
+      show ¬ hlen + _ > _; omega
+    have e3 : unle32 (file.drop (file.length - pack_headerLengthSize)) + pack_headerLengthSize > pack_MaxHeaderSize := h3
+    simp [e0, e1, e2, e3]
+
+theorem le32_unle32 (b : Bytes) (h : b.length = 4) : le32 (unle32 b) = b := by
+  match b, h with
+  | [a, b, c, d], _ =>
+    have := a.toNat_lt; have := b.toNat_lt; have := c.toNat_lt; have := d.toNat_lt
+    simp only [le32, unle32]
+    have e1 : (a.toNat + 256 * b.toNat + 65536 * c.toNat + 16777216 * d.toNat) % 256 = a.toNat := by omega
+    have e2 : (a.toNat + 256 * b.toNat + 65536 * c.toNat + 16777216 * d.toNat) / 256 % 256 = b.toNat := by omega
+    have e3 : (a.toNat + 256 * b.toNat + 65536 * c.toNat + 16777216 * d.toNat) / 65536 % 256 = c.toNat := by omega
+    have e4 : (a.toNat + 256 * b.toNat + 65536 * c.toNat + 16777216 * d.toNat) / 16777216 % 256 = d.toNat := by omega
+    rw [e1, e2, e3, e4]
+    simp
+
+/-- **Soundness of a listing (no wrong listing).** Whenever `List` returns entries for a file, the
+file ends with `nonce ‖ ct ‖ le32(|nonce ‖ ct|)` where `ct` was accepted by the cipher's `Open`
+(MAC check) under `nonce`; the entries are the parse of that authenticated plaintext, are
+well-formed, carry cumulative offsets, and the reported size is exactly that trailer, within
+`MaxHeaderSize`. So a truncated, extended or edited file can only be listed if the bytes in front
+of its (new) end still authenticate — which the MAC excludes. -/
+theorem list_ok_authentic (k : Crypto) (file : Bytes) (es : List Blob) (hs : Nat)
+    (h : list k file file.length = .ok (es, hs)) :
+    ∃ pre nonce ct plain,
+      file = pre ++ (nonce ++ ct) ++ le32 (nonce ++ ct).length ∧ nonce.length = crypto_ivSize ∧
+      k.openB nonce ct = some plain ∧ parseLoop plain.length plain 0 = .ok es ∧
+      hs = (nonce ++ ct).length + pack_headerLengthSize ∧ hs ≤ pack_MaxHeaderSize ∧
+      AllWF es ∧ withOffsets 0 es = es := by
+  obtain ⟨h4, hplain, hentry, hhs, hext, hmin, hmax32, _⟩ := facts_layout
+  unfold list at h
+  rw [readHeader_eq] at h
+  unfold headerOf at h
+  simp only at h
+  by_cases c0 : file.length < pack_minFileSize
+  · simp [c0] at h
+  simp only [c0, if_false] at h
+  generalize hh : unle32 (file.drop (file.length - pack_headerLengthSize)) = hlen at h
+  by_cases c1 : hlen = 0
+  · simp [c1] at h
+  by_cases c2 : hlen < crypto_Extension
+  · simp [c1, c2] at h
+  by_cases c3 : hlen + pack_headerLengthSize > file.length
+  · simp [c1, c2, c3] at h
+  by_cases c4 : hlen + pack_headerLengthSize > pack_MaxHeaderSize
+  · simp [c1, c2, c3, c4] at h
+  simp only [c1, c2, c3, c4, if_false] at h
+  generalize hbuf : (file.drop (file.length - pack_headerLengthSize - hlen)).take hlen = buf at h
+  have hbl : buf.length = hlen := by
+    rw [← hbuf]; simp only [List.length_take, List.length_drop]; omega
+  have c5 : ¬ buf.length < crypto_Extension := by omega
+  simp only [c5, if_false] at h
+  rw [slice?_ok _ _ _ (by omega) (by omega), from?_ok _ _ (by omega)] at h
+  simp only [List.drop_zero] at h
+  cases ho : k.openB (buf.take crypto_ivSize) (buf.drop crypto_ivSize) with
+  | none => simp [ho] at h
+  | some plain =>
+    simp only [ho] at h
+    rcases parseLoop_cases plain.length plain 0 (Nat.le_refl _) with (hp | hp) | ⟨es', hp, hwf, hoff⟩
+    · simp [hp] at h
+    · simp [hp] at h
+    · simp only [hp, Res.ok.injEq, Prod.mk.injEq] at h
+      obtain ⟨rfl, hhs'⟩ := h
+      refine ⟨file.take (file.length - pack_headerLengthSize - hlen), buf.take crypto_ivSize,
+        buf.drop crypto_ivSize, plain, ?_, ?_, ho, hp, ?_, ?_, hwf, hoff⟩
+      · have hb : buf.take crypto_ivSize ++ buf.drop crypto_ivSize = buf := List.take_append_drop _ _
+        have h4' : (file.drop (file.length - pack_headerLengthSize)).length = 4 := by
+          simp only [List.length_drop]; omega
+        have e1 : file.drop (file.length - pack_headerLengthSize) =
+            (file.drop (file.length - pack_headerLengthSize - hlen)).drop hlen := by
+          rw [List.drop_drop]; congr 1; omega
+        have e0 : le32 hlen = file.drop (file.length - pack_headerLengthSize) := by
+          rw [← hh, le32_unle32 _ h4']
+        rw [hb, hbl, e0, e1, ← hbuf, List.append_assoc, List.take_append_drop, List.take_append_drop]
+      · simp only [List.length_take]; omega
+      · rw [← hhs', List.take_append_drop, hbl, Nat.mod_eq_of_lt (by omega)]; omega
+      · rw [← hhs', hbl, Nat.mod_eq_of_lt (by omega)]; omega
+
+theorem headerOf_cases (file : Bytes) :
+    (headerOf file = .err .fileTooShort ∨ headerOf file = .err .hlenZero ∨ headerOf file = .err .hlenTooShort ∨
+      headerOf file = .err .hlenLargerThanFile ∨ headerOf file = .err .hlenLargerThanMax) ∨
+    (∃ buf, headerOf file = .ok buf ∧ crypto_Extension ≤ buf.length) := by
+  obtain ⟨h4, hplain, hentry, hhs, hext, hmin, hmax32, _⟩ := facts_layout
+  unfold headerOf
+  simp only
+  by_cases c0 : file.length < pack_minFileSize
+  · simp [c0]
+  simp only [c0, if_false]
+  generalize unle32 (file.drop (file.length - pack_headerLengthSize)) = hlen
+  by_cases c1 : hlen = 0
+  · simp [c1]
+  by_cases c2 : hlen < crypto_Extension
+  · simp [c1, c2]
+  by_cases c3 : hlen + pack_headerLengthSize > file.length
+  · simp [c1, c2, c3]
+  by_cases c4 : hlen + pack_headerLengthSize > pack_MaxHeaderSize
+  · simp [c1, c2, c3, c4]
+  right
+  simp only [c1, c2, c3, c4, if_false]
+  refine ⟨_, rfl, ?_⟩
+  simp only [List.length_take, List.length_drop]
+  omega
+
+/-- the error "invalid header, too short" of `List` is unreachable when the size is the file's
+length: the length-field guard has already excluded it -/
+theorem list_never_headerTooShort (k : Crypto) (file : Bytes) :
+    list k file file.length ≠ .err .headerTooShort := by
+  obtain ⟨h4, hplain, hentry, hhs, hext, hmin, hmax32, _⟩ := facts_layout
+  intro h
+  unfold list at h
+  rw [readHeader_eq] at h
+  rcases headerOf_cases file with (hh | hh | hh | hh | hh) | ⟨buf, hh, hbl⟩
+  · simp [hh] at h
+  · simp [hh] at h
+  · simp [hh] at h
+  · simp [hh] at h
+  · simp [hh] at h
+  · have hbl' : ¬ buf.length < crypto_Extension := by omega
+    simp only [hh, hbl', if_false] at h
+    rw [slice?_ok _ _ _ (by omega) (by omega), from?_ok _ _ (by omega)] at h
+    simp only [List.drop_zero] at h
+    cases ho : k.openB (buf.take crypto_ivSize) (buf.drop crypto_ivSize) with
+    | none => simp [ho] at h
+    | some plain =>
+      simp only [ho] at h
+      rcases parseLoop_cases plain.length plain 0 (Nat.le_refl _) with (hp | hp) | ⟨es', hp, _⟩
+      · simp [hp] at h
+      · simp [hp] at h
+      · simp [hp] at h
+
 end Restic.Props.C06
